@@ -101,9 +101,14 @@ class Ctx:
 
 
 def load_known(pid):
-    path = os.path.join(E.VERIF, "KNOWN_FINDINGS.jsonl")
+    paths = [os.path.join(E.VERIF, "KNOWN_FINDINGS.jsonl")]
+    kd = os.path.join(E.VERIF, "known")
+    if os.path.isdir(kd):
+        paths += [os.path.join(kd, f) for f in sorted(os.listdir(kd)) if f.endswith(".jsonl")]
     out = []
-    if os.path.exists(path):
+    for path in paths:
+        if not os.path.exists(path):
+            continue
         for line in open(path):
             line = line.strip()
             if not line or line.startswith("#"):
